@@ -95,6 +95,9 @@ class CoreMixin:
             b = b.args[2]
         if a is b:
             return a
+        # `True if c else False` is c itself when c is a comparison (a Python bool / boolean array)
+        if c.op == "Compare" and a.op == "Const" and b.op == "Const" and a.attr is True and b.attr is False:
+            return c
         if a.op == "Undefined":
             return b
         if b.op == "Undefined":
